@@ -50,6 +50,9 @@ func overlayFor(f *Fixture) (ov map[string][]byte, stale bool, err error) {
 	ov = map[string][]byte{}
 	repo := repoDir()
 	if f.Patch != "" {
+		if filepath.IsAbs(f.Patch) {
+			return overlayFromPatch(f.Patch)
+		}
 		return overlayFromPatch(filepath.Join(verifDir(), f.Patch))
 	}
 	for _, e := range f.Edits {
